@@ -5,3 +5,7 @@ Require Export SF.IxTreeSpecVal.
 
 Definition chk_M_hier (labs probes : list vlab) (observed : res vhobs) : bool :=
   rhobs_eqb (M_from_labels_obs val_eqb (map lab_canon labs) (map lab_canon probes)) (res_map hobs_canon observed).
+
+(* ih.level_drop(1) of a depth >= 3 index built from `labs` *)
+Definition chk_M_level_drop1 (labs probes : list vlab) (observed : res vhobs) : bool :=
+  rhobs_eqb (M_level_drop1_obs val_eqb (map lab_canon labs) (map lab_canon probes)) (res_map hobs_canon observed).
